@@ -1704,6 +1704,12 @@ class PSBTOut:
                         )
                     )
         elif self.witness_script:
+            if not script_pubkey.is_p2wsh() and not (
+                script_pubkey.is_p2sh()
+                and self.redeem_script
+                and self.redeem_script.is_p2wsh()
+            ):
+                raise ValueError("WitnessScript provided for non-p2wsh ScriptPubKey")
             if self.redeem_script:
                 h160 = script_pubkey.commands[1]
                 if self.redeem_script.hash160() != h160:
